@@ -51,6 +51,14 @@ def cases(ctx):
     for i in range(n):
         kind = rng.choice(["otsu", "otsu", "rc", "rc", "gbernsen", "bernsen", "soft"])
         if kind in ("otsu", "rc"):
+            if rng.random() < 0.08:
+                # heavy histograms: a few 16-bit levels with very large counts (level * count beyond 2**32, the range of the
+                # histogram's own integer type); given as runs, the image is built with np.repeat
+                levels = sorted(rng.sample([0, 1, 7, 255, 30000, 32768, 40000, 65535], rng.choice([2, 3, 4])))
+                runs = [[lv, rng.choice([1, 1000, 70000, 131072, 200000])] for lv in levels]
+                yield {"kind": kind, "dtype": "uint16", "runs": runs, "nd": 1, "ignore_zeros": rng.random() < 0.4,
+                       "layout": "C", "perm_seed": rng.randrange(1 << 30)}
+                continue
             dtype = rng.choice(["uint8", "uint8", "uint16", "uint32", "bool"])
             vals = rand_hist_image(rng, dtype)
             nd = rng.choice([1, 2, 3])
@@ -131,9 +139,14 @@ def run_case(ctx, case):
     kind = case["kind"]
     if kind in ("otsu", "rc"):
         dtype = case["dtype"]
-        vals = case["vals"]
-        n = len(vals)
-        a0 = np.array(vals, dtype=bool if dtype == "bool" else np.dtype(dtype)).reshape(shape_for(n, case["nd"], case["perm_seed"]))
+        if "runs" in case:
+            a0 = np.repeat(np.array([r[0] for r in case["runs"]], dtype=np.dtype(dtype)), [r[1] for r in case["runs"]])
+            vals = None
+            n = int(a0.size)
+        else:
+            vals = case["vals"]
+            n = len(vals)
+            a0 = np.array(vals, dtype=bool if dtype == "bool" else np.dtype(dtype)).reshape(shape_for(n, case["nd"], case["perm_seed"]))
         a = apply_layout(a0, case["layout"], fill=1)
         keep = a.copy()
         iz = case["ignore_zeros"]
@@ -148,9 +161,12 @@ def run_case(ctx, case):
         got_r = fn(np.ascontiguousarray(a0).reshape(-1, 1), ignore_zeros=iz)
         if not (got == got_p == got_r):
             return Result(False, True, {"why": "%s changed under a pixel permutation / reshape" % kind, "got": [float(got), float(got_p), float(got_r)]})
-        hist = [0] * (max(int(v) for v in vals) + 1)
-        for v in vals:
-            hist[int(v)] += 1
+        if vals is None:
+            hist = [int(v) for v in np.bincount(a0.astype(np.int64))]
+        else:
+            hist = [0] * (max(int(v) for v in vals) + 1)
+            for v in vals:
+                hist[int(v)] += 1
         if dtype == "bool":
             hist = (hist + [0, 0])[:2]
         if iz:
